@@ -56,10 +56,10 @@ def rOk (r : Option Unit) : String := if r.isSome then "ok" else "panic"
 def runOp (kind : String) (c : Cfg) (toks : List String) (vars : List (Option VS)) (w : W) :
     Option (List (Option VS) × W × String) := do
   let name ← toks.head?
-  let n := fun k => (kvNat toks k).getD 0
+  let n := fun k => if k == "x" && kind == "Z" then 0 else (kvNat toks k).getD 0
   let j := n "v"
   let jw := n "w"
-  let xs := parseList ((kv toks "xs").getD "-")
+  let xs := (parseList ((kv toks "xs").getD "-")).map fun x => if kind == "Z" then 0 else x
   let ans : List Bool := match kv toks "ans" with
     | none => []
     | some "-" => []
